@@ -518,7 +518,11 @@ WOp(w, ev) ==
                      bad == Len(ev.vals) # Len(want)
                             \/ \E v \in SeqToSet(want) \cup SeqToSet(ev.vals) :
                                  Cardinality({i \in 1..Len(want) : want[i] = v}) # Cardinality({i \in 1..Len(ev.vals) : ev.vals[i] = v})
-                 IN [w |-> w, f |-> flag(bad, "dense slice is not a permutation of the stored values", want)]
+                     \* a value the dense view still shows although the library has destroyed it / handed it back
+                     \* (the component of a purged entity, a removed component)
+                     gone == {g \in SeqToSet(ev.vals) \ SeqToSet(want) : g[1] \in DOMAIN w.led /\ w.led[g[1]] # "held"}
+                 IN [w |-> w, f |-> flag(bad, "dense slice is not a permutation of the stored values", want)
+                                    \cup (IF gone # {} THEN {F(p, "the dense view of the storage still shows a component that was purged / removed", <<s, gone>>) : p \in {"C05", "C08"}} ELSE {})]
        [] ev.k = "slicemut" ->
             \* ev.writes = <<<<index, cid, val>>>> : value cid at that index now has val
             LET RECURSIVE Wr(_, _)
@@ -588,9 +592,15 @@ Fault(w, ev) ==
       aliveH == {o.hs[i] : i \in {j \in 1..n : o.alive[j]}}
       st2 == [h \in w.issued |-> IF h \in aliveH THEN (IF w.status[h] = "dead" THEN "live" ELSE w.status[h]) ELSE "dead"]
       zombies == {h \in w.issued : w.status[h] = "dead" /\ h \in aliveH}
+      \* ev.orphan: the panic interrupted the chain of an entity builder (shared entities resource); the builder
+      \* was dropped by the unwinding, so its entity - created, reported by no creation event - awaits deletion
+      orph == IF "orphan" \in DOMAIN ev THEN {ev.orphan} ELSE {}
+      iss2 == w.issued \cup orph
   IN [w |-> [w EXCEPT !.fault = TRUE,
-                      !.status = st2,
-                      !.merged = IF ev.in = "MaintainBegin" THEN [h \in w.issued |-> TRUE] ELSE w.merged,
+                      !.issued = iss2,
+                      !.status = [h \in iss2 |-> IF h \in orph /\ h \notin w.issued THEN "doomed" ELSE st2[h]],
+                      !.merged = IF ev.in = "MaintainBegin" THEN [h \in iss2 |-> TRUE]
+                                 ELSE [h \in iss2 |-> IF h \in w.issued THEN w.merged[h] ELSE FALSE],
                       !.comp = [s \in DOMAIN w.comp |-> IF s <= Len(o.st) THEN newcomp(s) ELSE w.comp[s]],
                       !.resid = [s \in DOMAIN w.comp |-> IF s <= Len(o.st)
                                                           THEN w.resid[s] \cup (SeqToSet(o.st[s].mask) \ {o.hs[i][1] : i \in seen(s)})
@@ -608,7 +618,8 @@ Fault(w, ev) ==
       f |-> {F("C19", "a lookup returns a value that was already destroyed / handed back (storage, handle, value)",
                <<p[1], o.hs[p[2]], o.st[p[1]].get[p[2]]>>) : p \in exposed}
        \cup (IF L.anomalies # <<>> THEN {F("C19", "a value was destroyed twice", L.anomalies), F("C08", "a value was destroyed twice", L.anomalies)} ELSE {})
-       \cup {F("C19", "a dead entity is alive again after the fault", h) : h \in zombies}]
+       \cup {F("C19", "a dead entity is alive again after the fault", h) : h \in zombies}
+       \cup {F("C01", "handle not fresh", h) : h \in orph \cap w.issued}]
 
 \* a panic escaping library code where none is allowed
 PanicProp(w, ev) ==
